@@ -715,3 +715,16 @@ def _register_shared_cache():
 
 
 # _register_shared_cache() is called by the driver after this module is fully imported (no import cycles)
+
+
+# "under the configured closed side": the binning a configuration hands to trees and histograms carries the closed side that was asked
+# for, for every binning method (C15 unit on BinningConfig.create)
+def _register_shared_round9():
+    from . import C15 as _C15
+    unit(P, "BinningConfig.create", fuc=["yaw.config.binning:BinningConfig.create", "yaw.cosmology:RedshiftBinningFactory.linear",
+                                         "yaw.cosmology:RedshiftBinningFactory.comoving", "yaw.cosmology:RedshiftBinningFactory.logspace"],
+         cases=[dict(method=m, closed=c, cosmo="none") for m in ("linear", "comoving", "logspace") for c in ("left", "right")],
+         trusted=["np.linspace", "np.logspace", "z_at_value"])(_C15.u_create)
+
+
+# _register_shared_round9() is called by the driver after this module is fully imported (no import cycles)
